@@ -1,7 +1,6 @@
-import tempfile
 """Per-property checks.  Each function check_Cnn(work, tier, seed) returns an
 Outcome plus the evidence parameters; vcheck dispatches here."""
-import json, os, time, random, subprocess, shutil
+import json, os, time, random, subprocess, shutil, tempfile
 from core import *
 from flow import *
 from scen import *
